@@ -18,20 +18,27 @@ sys.path.insert(0, os.path.dirname(os.path.dirname(os.path.abspath(__file__))))
 from translate import tswiring  # noqa: E402
 
 CLAIM = {
-    "text": "Machine-checked (Coq): the time-series loop modelled as a fold over an arbitrary list of steps (any order, "
-            "subset, repetitions): a later write to a controlled cell overwrites an earlier one, so the description at "
-            "step t is U_0 with row t; by induction over the step list every logged row equals spec(U_0[cells := row "
-            "t]); with continue_on_divergence every step is logged in order (diverged = flagged) and later steps are "
-            "unaffected, without it the loop raises at the first failing step; the registered run function is pipeflow "
-            "and PipeflowNotConverged is the first recognised error in all four wiring sites (table regenerated from "
-            "the sources). `spec` is the stand-alone pipeflow, a function of the description by C12. Tied to the "
-            "running code by a bit-identical comparison of every row logged by the real run_timeseries.",
-    "note": "All theorems closed under the global context. pandapower's run_time_step / run_control / ConstControl / "
-            "OutputWriter are oracles with the behaviour written in coq/C13/Model.v (exercised, not proved). Multi-energy "
-            "series: multinet_step_equals_standalone (couplings = a function on input cells, no chains within a step) + "
-            "wiring fact that every net named by a multinet controller is recalculated + multinet monitor. pandapower's "
-            "OutputWriter leaves the result matrix row of a failed step at its initial 0.0 and reports the failure in "
-            "Parameters.powerflow_failed; the monitor checks the flag.",
+    "text": "PROVED (Coq, 8 theorems, no axioms): the time-series loop as a fold over an arbitrary step list (any order, "
+            "subset, repetitions): later writes overwrite earlier ones, the description at step t is U_0 with row t, every "
+            "logged row equals spec(U_0[cells := row t]) (induction over the list); with continue_on_divergence every step "
+            "is logged in order and later steps are unaffected, without it the loop raises at the first failing step; the "
+            "same for multi-energy series with couplings as a function on input cells (multinet_step_equals_standalone); a "
+            "loop shaped like pandapower's run_time_step equals the model under three stated laws of its collaborators "
+            "(pandapower_loop_is_the_model); wiring table regenerated from the sources (registered run function = pipeflow, "
+            "error tuples, run_loop shape, kwargs forwarding, relevant nets of a multinet). `spec` is the stand-alone "
+            "pipeflow, a function of the description by C12. MONITORED (bit-identical): every row logged by the real "
+            "run_timeseries (profiles on loads, pressures, duties, boolean supply / valve / pipe flags; shuffled and subset "
+            "steps; infeasible rows; two supply areas) and by the multinet run_timeseries (power-led G2P, P2G, non-default "
+            "solver options, a diverging step) vs stand-alone calculations.",
+    "note": "All theorems closed under the global context. ASSUMED of pandapower (hypotheses of pandapower_loop_is_the_model, "
+            "exercised by the monitor, not proved): (a) ConstControl.time_step writes data_source[t]*scale_factor into its "
+            "cells and nothing else; (b) run_control ends with one call of the registered run function on the written "
+            "description, an exception of ts_variables['errors'] -> pf_converged=False -> pf_not_converged raises errors[0] "
+            "unless continue_on_divergence; (c) OutputWriter saves one row per step in call order (a failed step: flag "
+            "Parameters.powerflow_failed, result row left 0.0; nothing is saved for the step at which the loop raises). "
+            "Multinet couplings are assumed to read input cells only, without chains within a step. Known finding "
+            "(known/C13.json): multinet run_timeseries(continue_on_divergence=True) raises PipeflowNotConverged at a "
+            "diverging gas step (top-level errors tuple of the multinet lacks it).",
     "technique": "Coq proof over hand-written step model + generated wiring table + bit-identical differential",
     "design": "DESIGN.md 4/C13 + design_notes/C13.md",
 }
@@ -334,8 +341,11 @@ def multinet_series(ctx, n_nets, n_steps):
         try:
             run_ts_mn(mn, steps, continue_on_divergence=diverging, verbose=False, **opts)
         except Exception as e:  # noqa: BLE001
-            ctx.violation({"kind": "multinet-ts-outcome"}, "multinet run_timeseries raised %s: %s although every step "
-                          "converges stand-alone" % (type(e).__name__, str(e)[:100]), replay)
+            ctx.violation({"kind": "multinet-ts-outcome", "diverging": diverging, "raised": type(e).__name__},
+                          "multinet run_timeseries(continue_on_divergence=%r) raised %s: %s %s"
+                          % (diverging, type(e).__name__, str(e)[:100],
+                             "- a diverging step must be flagged and the series continued" if diverging else
+                             "although every step converges stand-alone"), replay)
             series += 1
             continue
         series += 1
